@@ -22,13 +22,17 @@ PY
 import sys; p=sys.argv[1]; s=open(p).read(); s=s.replace("      - id: seg2\n        address: 0x01","      - id: seg2\n        adress: 0x01",1); open(p,"w").write(s)
 PY
     ;;
+    board)     python3 - $W/$1/bidib_board_config.yml <<'PY'
+import sys; p=sys.argv[1]; s=open(p).read(); s=s.replace("  - id: board1","  - name: board1",1); open(p,"w").write(s)
+PY
+    ;;
     reverser)  python3 - $f <<'PY'
 import sys; p=sys.argv[1]; s=open(p).read(); s=s.replace("      - id: reverser1\n        cv: 30051","      - id: reverser1\n        cv: 30051\n      - id: reverser2\n        cw: 30052",1); open(p,"w").write(s)
 PY
     ;;
   esac
 }
-for v in ${@:-aspect dcc_aspect point segment reverser}; do
+for v in ${@:-aspect dcc_aspect point segment reverser board}; do
   mk $v
   # the segment variant reads an uninitialised pointer: whether that crashes depends on stack garbage, so run it under valgrind
   if [ $v = segment ]; then timeout 300 valgrind -q --error-exitcode=125 $W/scn $W/$v > $W/out 2>&1; rc=$?
